@@ -50,6 +50,7 @@ type World struct {
 	roMemo          map[*ssa.Function]bool
 	inlineDeep      bool
 	inlTwin         map[string]string
+	n4Deep          bool
 	envRoot         *ssa.Function
 	structArg       map[*ssa.Parameter]ssa.Value
 	callResultsOn   bool
